@@ -21,12 +21,12 @@ var (
 
 	allTags   = []vtt.Tag{tagB, tagI, tagU, tagRed, tagAB, tagLang, tagHy, tagLang2}
 	allTexts  = []string{"x", "a b", " lead", "trail ", "7", "&", "<", "a<b", "&amp;", "a\u00a0b", "\u00e9", "e\u0301", "\U0001F600", "a>b", "a\tb", "\"q\"", "1 > 0 -> ok"}
-	allStarts = []int64{1000, 0, 1, 999, 1500, 59999, 60000, 3599999, 3600000, 35999999, 36000000, 86399999, 359998000}
+	allStarts = []int64{1000, 0, 1, 999, 1500, 59999, 60000, 3599999, 3600000, 35999999, 36000000, 86399999, 359998000, 360000000, 3599998000}
 	tsmaps    = []*vtt.TSMap{nil, {Local: 0, MpegTS: 900000}, {Local: 1000, MpegTS: 180000}, {Local: 3600000, MpegTS: 8589934591}, {Local: 2000, MpegTS: 0}, {Local: 0, MpegTS: 0}, {Local: 10000, MpegTS: 900000}} // the last two: a map that is set but shifts nothing
 	styleBlks = [][]string{{"::cue { color: red }"}, {"::cue(b) {", "  color: peachpuff;", "}"}}
 )
 
-const maxMs = 359999999
+const maxMs = 3599999999 // 999:59:59.999
 
 type profile struct {
 	ncues     []int
@@ -111,12 +111,12 @@ func coreA3() profile {
 func coreB1() profile {
 	p := base()
 	p.starts = []int64{1000, 3600000}
-	p.ids = []int{0, 1}
+	p.ids = []int{0, 1, 2}
 	p.comments = []int{0, 1, 2}
 	p.settings = 1
 	p.nregions = []int{1}
 	p.regionRef = true
-	p.rend = "eol shorttime settingssep noteblocks"
+	p.rend = "eol shorttime settingssep noteblocks idpad"
 	return p
 }
 
@@ -128,7 +128,18 @@ func coreB2() profile {
 	p.comments = []int{0, 1, 2}
 	p.nregions = []int{1}
 	p.regionRef = true
-	p.rend = "eol blank noteblocks eof"
+	p.rend = "eol blank noteblocks eof idpad"
+	return p
+}
+
+// core product T: every instant (up to 3-digit hours) x end form x inline timestamp x mm:ss.ttt
+func coreT() profile {
+	p := base()
+	p.starts = allStarts
+	p.ends = []int{0, 1, 2, 3}
+	p.ts = []int{0, 1, 2}
+	p.nruns = []int{1, 2}
+	p.rend = "shorttime tsbeforetags"
 	return p
 }
 
@@ -347,6 +358,9 @@ func gen(c *explore.C, p profile) Case {
 	if on("maprev") {
 		r.MapRev = c.Bool("maprev")
 	}
+	if on("idpad") {
+		r.IDPad = explore.Pick(c, "idpad", 0, 1, 2)
+	}
 	return Case{Doc: d, Render: r}
 }
 
@@ -365,6 +379,7 @@ func stages(thorough bool) []stage {
 		{"coreA3", coreA3(), -1, true},
 		{"coreB1", coreB1(), -1, true},
 		{"coreB2", coreB2(), -1, true},
+		{"coreT", coreT(), -1, true},
 		{"coreC1", coreC1(), -1, true},
 		{"coreC2", coreC2(), -1, true},
 		{"coreW", coreW(thorough), -1, false},
@@ -441,7 +456,7 @@ func init() {
 		ID: "C02", Level: "exploration",
 		Rule: "a case = (ground-truth WebVTT model, rendering choices) chosen by the E1 explorer: four full cartesian products of small grammars (A text structure: lines x runs x nested tag walks x inline timestamps x voice x lazy/unterminated/voice-closing tags and timestamp placement; B cue header: cue count x identifier x comments x every subset of the five settings x region reference x EOL x mm:ss.ttt x tab/space x comment block form; C blocks: 0..2 regions with every subset of attributes x region reference x STYLE blocks x timestamp map x EOL x BOM x header text x blank lines x EOF form; W writer: arbitrary tag stacks on neighbouring runs x inline timestamps) plus every document within B deviations from the baseline over ALL model and rendering choice points; read direction: ReadFromWebVTT(render(model)) must denote the model; write direction (two ways of building the library value: attribute holders allocated / nil when empty): WriteToWebVTT(model) must start with WEBVTT, number the cues 1..n, define every referenced region earlier in the file, and denote the model to the library reader and to an independent decoder; non-trivial = non-baseline case, distinct by (denotation, rendering) resp. (denotation, build variant)",
 		Scope: map[core.Tier]string{
-			core.Quick:    "core products A1 (1 line, <=2 runs), A2 (2 lines), both 3 tags x depth<=2 x timestamp x voice x 16 tag renderings; A3 (2 cues, tag leakage); B1 (1 cue: 32 settings subsets x id x comments x region ref x EOL x short time x separator x comment form); B2 (2 cues: id/comment/region attachment); C1 (<=2 regions x 32 attribute subsets x region ref); C2 (STYLE blocks x timestamp map x header forms); W (2 runs, 6 tags, depth<=2, arbitrary stacks) + deviation balls B=3 for the read and the write generator (<=2 cues, <=2 lines, <=2 runs, 6 tags, depth<=3, 17 text atoms, 13 instants, 16 rendering choice points)",
+			core.Quick:    "core products A1 (1 line, <=2 runs), A2 (2 lines), both 3 tags x depth<=2 x timestamp x voice x 16 tag renderings; A3 (2 cues, tag leakage); B1 (1 cue: 32 settings subsets x id (zero-padded or not) x comments x region ref x EOL x short time x separator x comment form); B2 (2 cues: id/comment/region attachment); T (15 instants up to 999 h x 4 end forms x inline timestamp x short time); C1 (<=2 regions x 32 attribute subsets x region ref); C2 (STYLE blocks x timestamp map x header forms); W (2 runs, 6 tags, depth<=2, arbitrary stacks) + deviation balls B=3 for the read and the write generator (<=2 cues, <=2 lines, <=2 runs, 6 tags, depth<=3, 17 text atoms, 15 instants, 17 rendering choice points)",
 			core.Thorough: "core products as quick with A1 <=3 runs / 4 tags, A2 4 tags, W depth<=3; deviation balls B=3 on the larger profile (<=3 cues, <=3 lines, <=3 runs) and B=4 on the quick profile",
 		},
 		Assumptions: []string{
